@@ -69,6 +69,10 @@ func tbAppendLog(rec tbLogRec) {
 
 // stageMain: `harness -stage NAME <split|main|join> <metadata> <files> <journal>`
 func stageMain(args []string) {
+	if len(args) >= 1 && args[0] == "__sighelper" {
+		sigHelperMain(args[1:])
+		return
+	}
 	if len(args) != 5 {
 		fmt.Fprintln(os.Stderr, "stage mode: bad arguments", args)
 		os.Exit(64)
@@ -141,6 +145,12 @@ func stageMain(args []string) {
 		end("sigkill")
 		syscall.Kill(os.Getpid(), syscall.SIGKILL)
 		time.Sleep(time.Second)
+	case "segv", "abrt", "bus":
+		// the stage code crashes: it dies from its own SIGSEGV / SIGABRT / SIGBUS (a plain process, so that
+		// no Go runtime handler is in the way)
+		end("crash-" + fault)
+		syscall.Exec("/bin/sh", []string{"sh", "-c", "kill -" + strings.ToUpper(fault) + " $$"}, os.Environ())
+		time.Sleep(time.Second)
 	case "errors":
 		fmt.Fprintf(errPipe, "injected stage error in %s", jobKey)
 		end("errors")
@@ -187,6 +197,10 @@ func tbSetup(c *Ctx) (*TBEnv, error) {
 	// mrp looks for ../jobmanagers relative to its own location
 	if out, err := exec.Command("cp", "-r", filepath.Join(c.RepoDir, "jobmanagers"), root+"/").CombinedOutput(); err != nil {
 		return nil, fmt.Errorf("copy jobmanagers: %v %s", err, out)
+	}
+	// ... and ../adapters (python stage code runs under adapters/python/martian_shell.py)
+	if out, err := exec.Command("cp", "-r", filepath.Join(c.RepoDir, "adapters"), root+"/").CombinedOutput(); err != nil {
+		return nil, fmt.Errorf("copy adapters: %v %s", err, out)
 	}
 	self, _ := os.Executable()
 	return &TBEnv{Root: root, Mrp: filepath.Join(bin, "mrp"), Harness: self}, nil
@@ -244,6 +258,8 @@ type TBSpec struct {
 	Timeout time.Duration
 	Retries int  // --autoretry
 	Zip     bool // --zip
+	// Files: extra files (path relative to the run directory -> content), e.g. python stage code
+	Files map[string]string
 }
 
 type TBIncarnation struct {
@@ -272,6 +288,11 @@ func (e *TBEnv) Run(spec *TBSpec, rng *rand.Rand) *TBResult {
 	res := &TBResult{Name: spec.Name, PsDir: filepath.Join(dir, "ps")}
 	mro := filepath.Join(dir, "pipeline.mro")
 	os.WriteFile(mro, []byte(e.tbProgram(spec.Src)), 0o644)
+	for rel, content := range spec.Files {
+		p := filepath.Join(dir, rel)
+		os.MkdirAll(filepath.Dir(p), 0o755)
+		os.WriteFile(p, []byte(content), 0o644)
+	}
 	ctlPath := filepath.Join(dir, "control.json")
 	b, _ := json.Marshal(spec.Control)
 	os.WriteFile(ctlPath, b, 0o644)
